@@ -302,9 +302,10 @@ func main() {
 	b.WriteString("def wrappers : List WrapperFact := [\n")
 	for i, k := range wn {
 		w := wrappers[k]
-		var fs []string
+		var fs, fns []string
 		for _, f := range w.fields {
 			fs = append(fs, fmt.Sprintf("(%s, %s, %s)", q(f[0]), f[1], flagTerm(f[2])))
+			fns = append(fns, bstr(f[0]))
 		}
 		sep := ","
 		if i == len(wn)-1 {
@@ -314,7 +315,7 @@ func main() {
 		if sn != "" {
 			sn = strings.ToLower(sn[:1]) + sn[1:]
 		}
-		fmt.Fprintf(&b, "  ⟨%s, %s, %s, %s, [%s]⟩%s\n", q("telegram."+w.name), bstr(sn), w.id, w.flagIndex, strings.Join(fs, ", "), sep)
+		fmt.Fprintf(&b, "  ⟨%s, %s, %s, %s, [%s], [%s]⟩%s\n", q("telegram."+w.name), bstr(sn), w.id, w.flagIndex, strings.Join(fs, ", "), strings.Join(fns, ", "), sep)
 	}
 	b.WriteString("]\n\nend Mtv.Gen\n")
 	src := b.String()
